@@ -115,9 +115,14 @@ impl Drop for Model
 }
 
 /// Run `f`, turning a panic of the real code into `Err(message)`.
+thread_local! {static QUIET: std::cell::Cell<u32> = std::cell::Cell::new(0);}
+
 pub fn guarded<T>(f: impl FnOnce() -> T) -> Result<T, String>
 {
-	match panic::catch_unwind(AssertUnwindSafe(f))
+	QUIET.with(|q| q.set(q.get() + 1));
+	let r = panic::catch_unwind(AssertUnwindSafe(f));
+	QUIET.with(|q| q.set(q.get() - 1));
+	match r
 	{
 		Ok(v) => Ok(v),
 		Err(e) =>
@@ -130,9 +135,11 @@ pub fn guarded<T>(f: impl FnOnce() -> T) -> Result<T, String>
 	}
 }
 
+/// panics of the code under test (inside `guarded`) are values, not noise; the harness's own panics are printed
 pub fn silence_panics()
 {
-	panic::set_hook(Box::new(|_| {}));
+	let default = panic::take_hook();
+	panic::set_hook(Box::new(move |info| {if QUIET.with(|q| q.get()) == 0 {default(info);}}));
 }
 
 pub fn hex(bytes: &[u8]) -> String
